@@ -267,6 +267,23 @@ def unitary_library(d):
     return out
 
 
+def positive_frames(d):
+    """exact unitaries whose columns all have a positive real first non-zero entry (no phase fixing in
+    to_kraus_matrices_from_hs)"""
+    Rp = np.array([[3 / 5, 4 / 5], [4 / 5, -3 / 5]], dtype=complex)
+    Cp = np.array([[3 / 5, 4 / 5], [4j / 5, -3j / 5]], dtype=complex)
+    out = [("id", np.eye(d, dtype=complex))]
+    if d == 4:
+        out += [("refl(x)cplx", np.kron(Rp, Cp)), ("perm", np.eye(4, dtype=complex)[[2, 0, 3, 1]])]
+    elif d == 9:
+        V3 = np.eye(3, dtype=complex)
+        V3[:2, :2] = Cp
+        W3 = np.eye(3, dtype=complex)
+        W3[1:, 1:] = Rp
+        out += [("(cplx+1)(x)(1+refl)", np.kron(V3, W3))]
+    return out
+
+
 def _dsum(a, b):
     out = np.zeros((a.shape[0] + b.shape[0], a.shape[1] + b.shape[1]), dtype=complex)
     out[:a.shape[0], :a.shape[1]] = a
